@@ -1131,6 +1131,31 @@ def _tools():
         name=_rv_name, block=num(0, 0, 1, 2, 3), level=lit('iiv', 'iiv', 'iiv', 'ruv'),
     )
     E('Parameters.create/+/replace', fn=f_params_direct, **T, how=lit('create', 'add', 'radd', 'add-list', 'add-parameters', 'replace'), name=_par_name)
+    def f_statements_direct(model, how):
+        """Model.replace(statements=...) with one more assignment placed before the last statement: a first
+        definition that refers to itself, a use before the definition, an undefined symbol (all three must be
+        refused: ValueError) or a proper statement"""
+        from pharmpy.basic import Expr
+        from pharmpy.model import Assignment
+
+        sts = model.statements
+        i = max(len(sts) - 1, 0)
+        new_s, later, first = Expr.symbol('NEWS_C06'), Expr.symbol('LATER_C06'), None
+        for s_ in sts:
+            if isinstance(s_, Assignment):
+                first = s_.symbol
+                break
+        if how == 'self-reference':
+            new = Assignment.create(new_s, new_s * 2)
+        elif how == 'defined-later':
+            new = Assignment.create(new_s, later + 1) + Assignment.create(later, Expr.integer(1))
+        elif how == 'undefined':
+            new = Assignment.create(new_s, Expr.symbol('NOWHERE_C06') + 1)
+        else:
+            new = Assignment.create(new_s, (first if first is not None else Expr.integer(1)) + 1)
+        return model.replace(statements=sts[:i] + new + sts[i:])
+
+    E('Model.replace(statements)', fn=f_statements_direct, **T, how=lit('self-reference', 'defined-later', 'undefined', 'fine', 'self-reference'))
     E('Model.update_source', fn=f_update_source, **T)
     E('Model.write_files', fn=f_write_files, **T, path=scratch_file('.mod'))
     E('Model.to_dict/from_dict', fn=f_to_from_dict, **T)
